@@ -20,6 +20,13 @@ theorem handle_silent_only_notification (h : Handler) (req : Req)
   repeat' split at hs
   all_goals simp_all
 
+theorem httpWire_none_only_notification (h : Handler) (req : Req)
+    (hs : httpWire req.id (h.handle false req) = none) : req.id = .nil := by
+  unfold httpWire at hs
+  split at hs
+  · rename_i hid; simpa using hid
+  · exact handle_silent_only_notification h req hs
+
 /-- C09_wellformed: the reply is empty or exactly one JSON value. -/
 theorem C09_wellformed (h : Handler) (maxSize size : Nat) (body : BodyIn) :
     (h.handleReader maxSize size body).toks = [] ∨
@@ -75,7 +82,7 @@ theorem C09_empty (h : Handler) (maxSize size : Nat) (body : BodyIn)
         split at hnone
         · simp at hnone
         · rename_i id hid
-          have := handle_silent_only_notification h _ hnone
+          have := httpWire_none_only_notification h ⟨_, _, _⟩ hnone
           simp at this
           rw [hid, this]
     · simp at he
@@ -89,7 +96,7 @@ theorem C09_empty (h : Handler) (maxSize size : Nat) (body : BodyIn)
         split at he
         · simp at he
         · rename_i hnone
-          have := handle_silent_only_notification h _ hnone
+          have := httpWire_none_only_notification h ⟨_, _, _⟩ hnone
           simp at this
           rw [hid, this]
 
@@ -121,6 +128,18 @@ theorem C09_batch (h : Handler) (maxSize size : Nat) (r : RawReq) (rs : List Raw
     | cons x xs => simp [objsOf_append, objsOf_sep, objsOf]
   · simp only [Handler.handleReader, hns, if_false]
     rw [hi]; simp
+
+/-- C09_http_notification_silent: over HTTP too a notification is never answered — not even when it names
+    an unknown method, has the wrong arity or undecodable params, or panics: a single notification is
+    answered by an empty body, and a notification inside a batch contributes no object to the reply array
+    (so the array holds exactly one object per element that is owed one). -/
+theorem C09_http_notification_silent (h : Handler) (maxSize size : Nat) (r : RawReq)
+    (hsz : size ≤ maxSize) (hn : normalizeID r.id = some .nil) :
+    (h.handleReader maxSize size (.single r)).toks = [] ∧ (elemOut h r).1 = none := by
+  have hns : ¬ size > maxSize := by omega
+  constructor
+  · simp [Handler.handleReader, hns, hn, httpWire]
+  · simp [elemOut, hn, httpWire]
 
 /-- C09_codes: the four library errors, each without running a handler. -/
 theorem C09_codes_blank (h : Handler) (maxSize size : Nat) (hsz : size ≤ maxSize) :
